@@ -251,6 +251,33 @@ func renderMpcl(mc *mpCase) string {
 			n1 := def(t)
 			n2 := def(t)
 			fmt.Fprintf(&body, "\t%s, %s := %s(%s, %s)\n", n1, n2, fn, x, y)
+		case "vswap":
+			t := types[s.X-1]
+			n1 := def(t)
+			n2 := def(t)
+			fmt.Fprintf(&body, "\t%s, %s := %s, %s\n\t%s, %s = %s, %s\n", n1, n2, name(s.X), name(s.Y), n1, n2, n2, n1)
+		case "fswap":
+			st := types[s.X-1]
+			n := def(rType{s: st.f1})
+			fmt.Fprintf(&body, "\t%st := %s\n\t%st.f1, %st.f2 = %st.f2, %st.f1\n\t%s := %st.f%d\n", n, name(s.X), n, n, n, n, n, n, s.C)
+		case "fcall":
+			st := types[s.X-1]
+			fn := "addsub_" + st.f1
+			helpers[fn] = fmt.Sprintf("func %s(x, y %s) (%s, %s) {\n\treturn x + y, x - y\n}\n", fn, st.f1, st.f1, st.f1)
+			n := def(rType{s: st.f1})
+			fmt.Fprintf(&body, "\t%st := %s\n\t%st.f1, %st.f2 = %s(%s, %s)\n\t%s := %st.f%d\n", n, name(s.X), n, n, fn, name(s.Y), name(s.Z), n, n, s.C)
+		case "aswap":
+			at := types[s.X-1]
+			i, j, r := s.C/9, (s.C/3)%3, s.C%3
+			n := def(rType{s: at.elem})
+			fmt.Fprintf(&body, "\t%st := %s\n\t%st[%d], %st[%d] = %st[%d], %st[%d]\n\t%s := %st[%d]\n", n, name(s.X), n, i, n, j, n, j, n, i, n, n, r)
+		case "acall":
+			at := types[s.X-1]
+			i, j, r := s.C/9, (s.C/3)%3, s.C%3
+			fn := "addsub_" + at.elem
+			helpers[fn] = fmt.Sprintf("func %s(x, y %s) (%s, %s) {\n\treturn x + y, x - y\n}\n", fn, at.elem, at.elem, at.elem)
+			n := def(rType{s: at.elem})
+			fmt.Fprintf(&body, "\t%st := %s\n\t%st[%d], %st[%d] = %s(%s, %s)\n\t%s := %st[%d]\n", n, name(s.X), n, i, n, j, fn, name(s.Y), name(s.Z), n, n, r)
 		case "mk":
 			t1, t2 := types[s.X-1].s, types[s.Y-1].s
 			x, y := name(s.X), name(s.Y)
@@ -863,26 +890,55 @@ func c03Wide(args []string) error {
 	// one operand is a literal: negative constants, constants with the top bit of the type set, powers of two
 	// (strength reduction, constant typing), on 32..130-bit types; the relation is the same as for two variables
 	lwidths := []int{32, 33, 63, 64, 65, 128, 130}
-	for i := 0; i < n/3+8; i++ {
-		w := lwidths[i%len(lwidths)]
-		signed := (i/len(lwidths))%2 == 0
-		T := typeName(signed, w)
-		opsL := [][2]string{{"mul", "*"}, {"mul", "*"}, {"add", "+"}, {"sub", "-"}, {"band", "&"}, {"div", "/"}, {"div", "/"}}
-		opn, sym := opsL[(i/2)%len(opsL)][0], opsL[(i/2)%len(opsL)][1]
-		var k *big.Int
-		var lit string
+	type litCase struct {
+		w      int
+		signed bool
+		opn    string
+		sym    string
+		k      *big.Int
+		div    bool
+	}
+	var lcases []litCase
+	for _, w := range lwidths {
 		top := new(big.Int).Lsh(big.NewInt(1), uint(w-1))
-		if signed {
-			k = []*big.Int{big.NewInt(-3), big.NewInt(-1), big.NewInt(-8), big.NewInt(5), big.NewInt(16), big.NewInt(-1000003)}[rng.Intn(6)]
-			lit = k.String()
-		} else {
-			k = []*big.Int{top, new(big.Int).Add(top, big.NewInt(5)), new(big.Int).Sub(new(big.Int).Lsh(top, 1), big.NewInt(1)), big.NewInt(3), big.NewInt(8), new(big.Int).Rsh(top, 1)}[rng.Intn(6)]
+		for _, signed := range []bool{true, false} {
+			var ks []*big.Int
+			if signed {
+				ks = []*big.Int{big.NewInt(-3), big.NewInt(-1), big.NewInt(-8), big.NewInt(5), big.NewInt(16), big.NewInt(-1000003)}
+			} else {
+				ks = []*big.Int{top, new(big.Int).Add(top, big.NewInt(5)), new(big.Int).Sub(new(big.Int).Lsh(top, 1), big.NewInt(1)), big.NewInt(3), big.NewInt(8), new(big.Int).Rsh(top, 1)}
+			}
+			// constants beyond a machine word whose low 64 bits look like 0, 1 or a small power of two
+			for _, e := range []int{64, 65, 100} {
+				if e < w-1 {
+					p := new(big.Int).Lsh(big.NewInt(1), uint(e))
+					ks = append(ks, p, new(big.Int).Add(p, big.NewInt(1)), new(big.Int).Add(p, big.NewInt(4)))
+				}
+			}
+			for _, op := range [][2]string{{"mul", "*"}, {"add", "+"}, {"sub", "-"}, {"band", "&"}} {
+				for _, k := range ks {
+					lcases = append(lcases, litCase{w, signed, op[0], op[1], k, false})
+				}
+			}
+			for _, k := range []int64{2, 4, 8, 1 << 20, 3, 7} {
+				lcases = append(lcases, litCase{w, signed, "div", "/", big.NewInt(k), true})
+			}
+		}
+	}
+	// the quick tier takes a seeded third of the cases, the thorough tier all of them
+	for i, lc := range lcases {
+		if !thorough() && (i+int(seed()))%3 != 0 {
+			continue
+		}
+		w, signed, opn, sym, k := lc.w, lc.signed, lc.opn, lc.sym, lc.k
+		T := typeName(signed, w)
+		lit := k.String()
+		if !signed {
 			lit = "0x" + k.Text(16)
 		}
 		src := fmt.Sprintf("package main\n\nfunc main(a, b %s) %s {\n\treturn a %s %s\n}\n", T, T, sym, lit)
-		if opn == "div" {
+		if lc.div {
 			// a divisor known at compile time (powers of two invite strength reduction): quotient and remainder
-			k = []*big.Int{big.NewInt(2), big.NewInt(4), big.NewInt(8), big.NewInt(1 << 20), big.NewInt(3), big.NewInt(7)}[rng.Intn(6)]
 			lit = k.String()
 			opn = "udiv"
 			if signed {
@@ -899,7 +955,7 @@ func c03Wide(args []string) error {
 			continue
 		}
 		y := new(big.Int).And(k, new(big.Int).Sub(new(big.Int).Lsh(big.NewInt(1), uint(w)), big.NewInt(1))) // two's complement at the type's width
-		for j := 0; j < 6; j++ {
+		for j := 0; j < 4; j++ {
 			x := boundaryOperand(rng, w)
 			got, err := c.Compute([]*big.Int{x, big.NewInt(0)})
 			if err != nil {
@@ -914,6 +970,8 @@ func c03Wide(args []string) error {
 				lc = "neg=32"
 			} else if k.BitLen() == w {
 				lc = "top"
+			} else if k.BitLen() > 64 {
+				lc = "beyond64"
 			}
 			rem := []int{0}
 			if opn == "udiv" || opn == "idiv" {
